@@ -31,23 +31,30 @@ HeaderBytes(F) == F.hblk * DiskBlockBytes
 UnitExt(F) == IF F.dim = 3 THEN <<4, 4, 4>> ELSE <<1, 4, 4>>
 
 \* padded extent in voxels, in units, in blocks
-P(F)  == [a \in 1..3 |-> Pad(F.n[a], F.b[a])]
-NU(F) == [a \in 1..3 |-> P(F)[a] \div UnitExt(F)[a]]
-NB(F) == [a \in 1..3 |-> P(F)[a] \div F.b[a]]
+\* (per-axis operators Xa(F, a) are what the definitions use: TLC does not memoise, and building the
+\*  three-element function for every X(F)[a] dominated the run time)
+UE(F, a)  == IF F.dim = 3 \/ a > 1 THEN 4 ELSE 1
+Pa(F, a)  == Pad(F.n[a], F.b[a])
+NUa(F, a) == Pa(F, a) \div UE(F, a)
+NBa(F, a) == Pa(F, a) \div F.b[a]
+UBa(F, a) == F.b[a] \div UE(F, a)
+P(F)  == [a \in 1..3 |-> Pa(F, a)]
+NU(F) == [a \in 1..3 |-> NUa(F, a)]
+NB(F) == [a \in 1..3 |-> NBa(F, a)]
 \* units per block along each axis
-UB(F) == [a \in 1..3 |-> F.b[a] \div UnitExt(F)[a]]
+UB(F) == [a \in 1..3 |-> UBa(F, a)]
 
-UnitsPerBlock(F) == UB(F)[1] * UB(F)[2] * UB(F)[3]
+UnitsPerBlock(F) == UBa(F, 1) * UBa(F, 2) * UBa(F, 3)
 BlockBytes(F)    == UnitsPerBlock(F) * F.ub
-DataBlocks(F)    == NB(F)[1] * NB(F)[2] * NB(F)[3]
+DataBlocks(F)    == NBa(F, 1) * NBa(F, 2) * NBa(F, 3)
 DataBytes(F)     == DataBlocks(F) * DiskBlockBytes
 \* a "chunk": the blocks that span a complete set of traces (read.py:209)
-ChunkBytes(F)    == BlockBytes(F) * NB(F)[3]
+ChunkBytes(F)    == BlockBytes(F) * NBa(F, 3)
 
 \* The descriptor is one the format admits
 WellFormed(F) ==
     /\ F.dim \in {2, 3}
-    /\ \A a \in 1..3 : F.n[a] >= 1 /\ F.b[a] >= UnitExt(F)[a] /\ F.b[a] % UnitExt(F)[a] = 0
+    /\ \A a \in 1..3 : F.n[a] >= 1 /\ F.b[a] >= UE(F, a) /\ F.b[a] % UE(F, a) = 0
     /\ F.dim = 2 => (F.b[1] = 1 /\ F.n[1] = 1)
     /\ BlockBytes(F) = DiskBlockBytes
 
@@ -55,10 +62,10 @@ WellFormed(F) ==
 (* Where a unit lives.  Blocks are stored in i-x-z raster order, units     *)
 (* inside a block in i-x-z raster order of the block.                      *)
 (***************************************************************************)
-Units(F)  == {<<ui, ux, uz>> : ui \in 0..(NU(F)[1]-1), ux \in 0..(NU(F)[2]-1), uz \in 0..(NU(F)[3]-1)}
-BlockOf(F, u)    == <<u[1] \div UB(F)[1], u[2] \div UB(F)[2], u[3] \div UB(F)[3]>>
-BlockIndex(F, k) == (k[1] * NB(F)[2] + k[2]) * NB(F)[3] + k[3]
-InBlock(F, u)    == ((u[1] % UB(F)[1]) * UB(F)[2] + (u[2] % UB(F)[2])) * UB(F)[3] + (u[3] % UB(F)[3])
+Units(F)  == {<<ui, ux, uz>> : ui \in 0..(NUa(F, 1)-1), ux \in 0..(NUa(F, 2)-1), uz \in 0..(NUa(F, 3)-1)}
+BlockOf(F, u)    == <<u[1] \div UBa(F, 1), u[2] \div UBa(F, 2), u[3] \div UBa(F, 3)>>
+BlockIndex(F, k) == (k[1] * NBa(F, 2) + k[2]) * NBa(F, 3) + k[3]
+InBlock(F, u)    == ((u[1] % UBa(F, 1)) * UBa(F, 2) + (u[2] % UBa(F, 2))) * UBa(F, 3) + (u[3] % UBa(F, 3))
 \* offset relative to the start of the data section
 UnitOff(F, u)    == BlockIndex(F, BlockOf(F, u)) * DiskBlockBytes + InBlock(F, u) * F.ub
 \* absolute file offset
@@ -68,19 +75,19 @@ UnitAddr(F, u)   == HeaderBytes(F) + UnitOff(F, u)
 UnitAtOff(F, off) ==
     LET blk == off \div DiskBlockBytes
         inb == (off % DiskBlockBytes) \div F.ub
-        k3  == blk % NB(F)[3]
-        k2  == (blk \div NB(F)[3]) % NB(F)[2]
-        k1  == blk \div (NB(F)[3] * NB(F)[2])
-        w3  == inb % UB(F)[3]
-        w2  == (inb \div UB(F)[3]) % UB(F)[2]
-        w1  == inb \div (UB(F)[3] * UB(F)[2])
-    IN  <<k1 * UB(F)[1] + w1, k2 * UB(F)[2] + w2, k3 * UB(F)[3] + w3>>
+        k3  == blk % NBa(F, 3)
+        k2  == (blk \div NBa(F, 3)) % NBa(F, 2)
+        k1  == blk \div (NBa(F, 3) * NBa(F, 2))
+        w3  == inb % UBa(F, 3)
+        w2  == (inb \div UBa(F, 3)) % UBa(F, 2)
+        w1  == inb \div (UBa(F, 3) * UBa(F, 2))
+    IN  <<k1 * UBa(F, 1) + w1, k2 * UBa(F, 2) + w2, k3 * UBa(F, 3) + w3>>
 
-UnitOfVoxel(F, v) == <<v[1] \div UnitExt(F)[1], v[2] \div UnitExt(F)[2], v[3] \div UnitExt(F)[3]>>
+UnitOfVoxel(F, v) == <<v[1] \div UE(F, 1), v[2] \div UE(F, 2), v[3] \div UE(F, 3)>>
 BlockOfVoxel(F, v) == BlockIndex(F, <<v[1] \div F.b[1], v[2] \div F.b[2], v[3] \div F.b[3]>>)
 
 \* A unit holds at least one real (unpadded) voxel
-RealUnit(F, u) == \A a \in 1..3 : u[a] * UnitExt(F)[a] < F.n[a]
+RealUnit(F, u) == \A a \in 1..3 : u[a] * UE(F, a) < F.n[a]
 
 \* UnitOff is a bijection between Units(F) and the unit-aligned slots of the data section
 LayoutBijective(F) ==
